@@ -104,16 +104,27 @@ TypeOfJSON(v) ==
 ----------------------------------------------------------------------------
 (* Declarative layer: DESIGN.md A.6.  T [= any; obj(P, strict) [= obj(P, any); covariant in the
    properties, the mapped type and the element type.  For arrays produced by `.*` the Deref flag may
-   only be gained (a filtered array admits more, never fewer, operations). *)
+   only be gained (a filtered array admits more, never fewer, operations).
+   Derived rule for an OPEN object on the right (its absent properties read as any, so leaving a
+   property out of an open object is the same as typing it any): obj(P, m) [= obj(P', any) if every
+   property of P' is loosened from what the left object gives for that name (its property, else its
+   mapped type; a closed object without it rejects the access, which constrains nothing).  This is
+   what "a literal object replaced by an expression evaluating to an open object" (github.event, an
+   `include` element of unknown type opening the matrix) means. *)
 RECURSIVE Loosens(_, _)
 Loosens(t, u) ==
   IF u.k = "any" THEN TRUE
   ELSE IF t.k # u.k THEN FALSE
   ELSE CASE t.k = "obj" ->
-              /\ Len(t.props) = Len(u.props)
-              /\ \A i \in DOMAIN t.props : t.props[i].n = u.props[i].n /\ Loosens(t.props[i].t, u.props[i].t)
-              /\ IF t.m.k = "strict" THEN u.m.k \in {"strict", "any"}
-                 ELSE IF u.m.k = "strict" THEN FALSE ELSE Loosens(t.m, u.m)
+              IF u.m.k = "any" THEN
+                \A i \in DOMAIN u.props :
+                  IF HasProp(t, u.props[i].n) THEN Loosens(PropT(t, u.props[i].n), u.props[i].t)
+                  ELSE IF IsStrict(t) THEN TRUE ELSE Loosens(t.m, u.props[i].t)
+              ELSE
+                /\ Len(t.props) = Len(u.props)
+                /\ \A i \in DOMAIN t.props : t.props[i].n = u.props[i].n /\ Loosens(t.props[i].t, u.props[i].t)
+                /\ IF t.m.k = "strict" THEN u.m.k = "strict"
+                   ELSE IF u.m.k = "strict" THEN FALSE ELSE Loosens(t.m, u.m)
          [] t.k = "arr" -> Loosens(t.elem, u.elem) /\ (t.deref => u.deref)
          [] OTHER -> TRUE
 
